@@ -5,6 +5,8 @@ the jitted kernels are call recorders returning tokens, so the property is state
 dict entry points produce exactly the trace of the corresponding loop of single adds."""
 from typing import Dict, List
 from checks.wcommon import *  # noqa
+if MODE == "shim":
+    from engine.shim import shims as _sh
 
 W_STUBS = ["kernels (_add*, _add_ngram*, _query*, _counter2value) are call recorders returning tokens", "numpy/numba/SharedMemory shimmed"]
 W_ASSUMPTIONS = ["what one kernel call does is decided by the engine-K checks (C01..C05, C12 K part)"]
@@ -361,15 +363,34 @@ def check_query_glue(kind: int) -> bool:
     return True
 
 
-def check_log_ctor(kind: int, mc: int, res: int) -> bool:
+def _pool_seeded_freshly(sk):
+    """the generator the pool of draws comes from is seeded from OS entropy, directly or through an integer drawn from an
+    entropy-seeded generator over a range of at least 2^32 values and handed on unchanged (so two sketches, processes or
+    parallel_add workers do not share their draws)"""
+    log = _sh.RNG["log"]
+    pools = [e for e in log if e[0] == "random"]
+    if len(pools) != 1 or pools[0][2] != 2048:
+        return False
+    gen = pools[0][1]
+    if gen.seed is None:
+        return True
+    for e in log:
+        if e[0] == "integers" and e[1].seed is None and e[3] - e[2] >= 2 ** 32 and gen.seed == e[4]:
+            return True
+    return False
+
+
+def check_log_ctor(kind: int, mc: int, res: int, tok: int) -> bool:
     """
-    pre: 1 <= kind <= 2 and 70000 <= mc < 2**64 and 0 <= res < 255
+    pre: 1 <= kind <= 2 and 70000 <= mc < 2**64 and 0 <= res < 255 and 0 <= tok < 2**63
     post: _ == True
     """
     for k in (1, 2):
         if kind == k:
+            _sh.RNG["tok"] = tok
+            del _sh.RNG["log"][:]
             sk = CM.CountMinLog16(3, 2, mc, res) if k == 1 else CM.CountMinLog8(3, 2, mc, res)
-            return sk.rand_ptr == 0 and tuple(sk.rand_nums.shape) == (2048,)
+            return sk.rand_ptr == 0 and tuple(sk.rand_nums.shape) == (2048,) and _pool_seeded_freshly(sk)
     return True
 
 
@@ -392,13 +413,20 @@ def real_query_glue(kind):
     return float(got) == 3.0, f"query(b'xy') after add(b'xy', 3), add(b'zz', 200) on a 4x2 sketch = {got}"
 
 
-def real_log_ctor(kind, mc, res):
+def real_log_ctor(kind, mc, res, tok=0):
+    cls = CM.CountMinLog16 if kind == 1 else CM.CountMinLog8
     try:
-        sk = CM.CountMinLog16(3, 2, mc, res) if kind == 1 else CM.CountMinLog8(3, 2, mc, res)
+        sk = cls(3, 2, mc, res)
     except ValueError:
         return True, "constructor refused the configuration"
     ok = int(sk.rand_ptr) == 0 and sk.rand_nums.shape == (2048,) and float(sk.rand_nums.min()) >= 0.0 and float(sk.rand_nums.max()) < 1.0
-    return ok, f"rand_ptr={sk.rand_ptr}, batch shape {sk.rand_nums.shape}"
+    # freshly seeded pools: 24 sketches of this class never start from the same draws
+    firsts = set()
+    for _ in range(24):
+        firsts.add(tuple(float(x) for x in cls(3, 2, mc, res).rand_nums[:4]))
+    if len(firsts) < 24:
+        return False, f"24 new {cls.__name__} sketches start from only {len(firsts)} distinct pool(s) of draws: the pool generator is not freshly seeded"
+    return ok, f"rand_ptr={sk.rand_ptr}, batch shape {sk.rand_nums.shape}, 24 sketches with 24 distinct pools"
 
 
 def _state(sk):
